@@ -239,6 +239,14 @@ pub fn guard<T>(f: impl FnOnce() -> T) -> Result<T, String> {
     }
 }
 
+/// Like `guard` but hands back the panic payload (for control-flow panics with typed payloads).
+pub fn guard_any<T>(f: impl FnOnce() -> T) -> Result<T, Box<dyn std::any::Any + Send>> {
+    let prev = QUIET.with(|q| q.replace(true));
+    let r = catch_unwind(AssertUnwindSafe(f));
+    QUIET.with(|q| q.set(prev));
+    r
+}
+
 /// Signature of a panic message: the location with the repo prefix stripped, no message text that
 /// may contain values.
 pub fn panic_sig(p: &str) -> String {
